@@ -282,6 +282,9 @@ func (c13Engine) Gen(g *Gen) {
 		nm := g.Rng.Intn(5)
 		for i := 0; i < nm; i++ {
 			m := modJ{Name: toB(fmt.Sprintf("m%d", i)), Arts: []artJ{}}
+			if i > 0 && g.Rng.Intn(4) == 0 { // two distinct modules may answer the same Name()
+				m.Name = in.Mods[g.Rng.Intn(i)].Name
+			}
 			na := g.Rng.Intn(4)
 			if g.Rng.Intn(4) == 0 {
 				na = 0
